@@ -44,12 +44,22 @@ Print Assumptions C03_unknown_end_ignored.
 (* whitespace-only text outside whitespace-preserving elements collapses to one newline or one space *)
 Theorem C03_ws_collapse : forall cfg s cls chunks,
   s_pending s = chunks -> chunks <> [] ->
+  (match cls with Some c => preformatted_cls c | None => false end) = false ->
   existsb (fun x => memS (s_name s x) (c_pw cfg)) (s_open s) = false ->
   all_in (c_spaces cfg) (concat (rev chunks)) = true ->
   exists c, s_nodes (s_flush cfg s cls) = s_nodes s ++
      [mksn (hd_error (s_open s)) (mkpl (if memN 10%N (concat (rev chunks)) then [10%N] else [32%N]) None [] c false)].
 Proof. exact ws_collapse. Qed.
 Print Assumptions C03_ws_collapse.
+
+(* ... whereas the content of a special string (comment, CDATA section, doctype, declaration, processing
+   instruction: a PreformattedString class asked for by the builder) is exactly the data the builder sent *)
+Theorem C03_special_string_kept : forall cfg s c chunks,
+  s_pending s = chunks -> chunks <> [] -> preformatted_cls c = true ->
+  exists k, s_nodes (s_flush cfg s (Some c)) = s_nodes s ++
+     [mksn (hd_error (s_open s)) (mkpl (concat (rev chunks)) None [] k false)].
+Proof. exact special_string_kept. Qed.
+Print Assumptions C03_special_string_kept.
 
 (* ---- tables the construction rules mention ---- *)
 
